@@ -1,6 +1,7 @@
 """C10 - the regex engine is total.  K3: every raise in the regex parser is RegExpError, construction converts it to
 a catchable SyntaxError, budget exhaustion is converted at every matcher entry point; the main matcher loop counts steps
 and bounds its stack.  B: pattern soups / mutations / truncations and catastrophic-backtracking families under a watchdog."""
+from pyvc import structural as _S_
 import random, json
 from pyvc import groups
 from pyvc.groups import ob
@@ -12,15 +13,15 @@ def c10_struct(tier="quick", seed=0):
     import ast
     out = []
     tree = S.source().modules["microjs.regex.parser"].tree
-    classes = sorted({ast.unparse(r.exc.func) if isinstance(r.exc, ast.Call) else ast.unparse(r.exc) for r in ast.walk(tree) if isinstance(r, ast.Raise) and r.exc is not None})
+    classes = sorted({_S_.unparse(r.exc.func) if isinstance(r.exc, ast.Call) else _S_.unparse(r.exc) for r in ast.walk(tree) if isinstance(r, ast.Raise) and r.exc is not None})
     out.append(ob("C10.struct.parser-raises-only-RegExpError", classes == ["RegExpError"], "K3", f"raise sites of the regex parser use {classes}"))
-    init = ast.unparse(S.fn("microjs.values", "JSRegExp.__init__"))
+    init = _S_.unparse(S.fn("microjs.values", "JSRegExp.__init__"))
     out.append(ob("C10.struct.construction-catchable", "except RegExpError as e:" in init and "raise JSSyntaxError(" in init, "K3", "JSRegExp.__init__ converts RegExpError into JSSyntaxError (script SyntaxError)"))
-    rinit = ast.unparse(S.fn("microjs.regex.regex", "RegExp.__init__"))
+    rinit = _S_.unparse(S.fn("microjs.regex.regex", "RegExp.__init__"))
     out.append(ob("C10.struct.compile-wraps-unexpected", "except Exception as e:" in rinit and "RegExpError" in rinit, "K3", "RegExp.__init__ wraps unexpected compile failures into RegExpError"))
-    run = ast.unparse(S.fn("microjs.values", "JSRegExp._run"))
+    run = _S_.unparse(S.fn("microjs.values", "JSRegExp._run"))
     out.append(ob("C10.struct.stack-overflow-converted", "except RegexStackOverflow:" in run and "raise JSRangeError(" in run, "K3", "exec/test convert RegexStackOverflow into a RangeError"))
-    vm = ast.unparse(S.source().modules["microjs.vm"].tree)
+    vm = _S_.unparse(S.source().modules["microjs.vm"].tree)
     n_t, n_s = vm.count("except RegexTimeoutError:"), vm.count("except RegexStackOverflow:")
     out.append(ob("C10.struct.string-methods-convert-budgets", n_t == n_s and n_t >= 6, "K3", f"{n_t} RegexTimeoutError handlers, {n_s} RegexStackOverflow handlers at the matcher entry points of vm.py"))
     # every backtracking loop of the regex VM (functions of RegexVM with a `while True` loop; look-around bodies
@@ -31,7 +32,7 @@ def c10_struct(tier="quick", seed=0):
         if isinstance(f, ast.FunctionDef) and any(isinstance(w, ast.While) and isinstance(w.test, ast.Constant) and w.test.value is True for w in ast.walk(f)):
             loops.append(f)
     def all_loops(pred):
-        return bool(loops) and all(pred(ast.unparse(f)) for f in loops)
+        return bool(loops) and all(pred(_S_.unparse(f)) for f in loops)
     import re as _re
     names = [f.name for f in loops]
     out.append(ob("C10.struct.step-budget", all_loops(lambda t: _re.search(r"(\w|\.)*step_count \+= 1", t) and "self.step_limit" in t), "K3",
@@ -53,19 +54,19 @@ def c10_struct(tier="quick", seed=0):
             for n in ast.walk(f):
                 tgts = n.targets if isinstance(n, ast.Assign) else ([n.target] if isinstance(n, (ast.AugAssign, ast.AnnAssign)) else [])
                 for t_ in tgts:
-                    if "step_count" in ast.unparse(t_):
-                        plain_increment = isinstance(n, ast.AugAssign) and isinstance(n.op, ast.Add) and ast.unparse(n.value) == "1"
+                    if "step_count" in _S_.unparse(t_):
+                        plain_increment = isinstance(n, ast.AugAssign) and isinstance(n.op, ast.Add) and _S_.unparse(n.value) == "1"
                         if not plain_increment:
                             resets += 1
-                            if id(n) in loop_nodes or f in loops and not ast.unparse(n.value) == "0":
+                            if id(n) in loop_nodes or f in loops and not _S_.unparse(n.value) == "0":
                                 resets_in_loop.append(f"{f.name}:{n.lineno}")
     out.append(ob("C10.struct.step-counter-reset-only-at-attempt-start", resets >= 1 and not resets_in_loop, "K3",
                   f"{resets} assignment(s) to the step counter other than `+= 1`; inside a loop: {resets_in_loop}",
                   witness="/^(?:(?=a)a|(?=a)a)*b/.test('a'.repeat(40) + 'c')"))
     # the budget is per attempt and does not grow with the subject
-    ex = ast.unparse(S.fn("microjs.regex.vm", "RegexVM._execute"))
-    lim = [n for f in loops for n in ast.walk(f) if isinstance(n, ast.Compare) and "step_limit" in ast.unparse(n)]
-    ok = bool(lim) and all(ast.unparse(c.comparators[0]) == "self.step_limit" for c in lim) and "self.step_limit =" not in ast.unparse(tree).replace("self.step_limit = step_limit", "")
+    ex = _S_.unparse(S.fn("microjs.regex.vm", "RegexVM._execute"))
+    lim = [n for f in loops for n in ast.walk(f) if isinstance(n, ast.Compare) and "step_limit" in _S_.unparse(n)]
+    ok = bool(lim) and all(_S_.unparse(c.comparators[0]) == "self.step_limit" for c in lim) and "self.step_limit =" not in _S_.unparse(tree).replace("self.step_limit = step_limit", "")
     out.append(ob("C10.struct.step-budget-constant", ok, "K3", "steps are compared with self.step_limit itself (no scaling by subject length or mode); step_limit is assigned in __init__ only",
                   witness="/(a*)*b/y.test('a'.repeat(5000)) without a time limit"))
     return out
